@@ -47,6 +47,17 @@ _TEXT = {}
 
 
 def lines(rel):
+    if rel.startswith("design:"):
+        # D3: grammar-generated design, a pure function of the number after the colon
+        import random
+
+        from harness.gen import designs
+
+        if rel not in _TEXT:
+            if len(_TEXT) > 6000:
+                _TEXT.clear()
+            _TEXT[rel] = designs.gen_design(random.Random(int(rel.split(":")[1]))).split("\n")
+        return list(_TEXT[rel])
     if rel not in _TEXT:
         _TEXT[rel] = vsgapi.read_file(path(rel))
     return list(_TEXT[rel])
